@@ -45,8 +45,9 @@ func TestXZeroPoints(t *testing.T) {
 	vlib.Exhaustive("C13: Euler criterion on b for every Weierstrass curve over F_p (which curves have a point with x = 0)")
 }
 
-// TestGenerators: the library's designated generator is ± the standard generator (in the model)
-// and its encodings are the model's.
+// TestGenerators: the library's designated generator is on the curve and of prime order in the
+// model; whether it is the standard base point is recorded as a note (all element classes of this
+// package are defined relative to the library's generator).
 func TestGenerators(t *testing.T) {
 	const test = "Generators"
 	gs, _ := tables()
@@ -59,6 +60,9 @@ func TestGenerators(t *testing.T) {
 		if !m.IsOnCurve(lg) {
 			t.Fatalf("%s: generator not on the curve", g.name)
 		}
+		if m.IsNeutral(lg) || !inSubgroup(m, lg) {
+			t.Fatalf("%s: the library's generator %s does not generate the prime-order subgroup", g.name, lg)
+		}
 		sign := "standard"
 		switch {
 		case m.Equal(lg, m.G):
@@ -66,7 +70,8 @@ func TestGenerators(t *testing.T) {
 			sign = "negated"
 			vlib.Note(fmt.Sprintf("C13: the %s generator of the library is the NEGATIVE of the standard base point (second coordinate negated); not an encoding matter, recorded only", g.name))
 		default:
-			t.Fatalf("%s: the library's generator %s is not ± the standard generator", g.name, lg)
+			sign = "other"
+			vlib.Note(fmt.Sprintf("C13: the %s generator of the library is %s, not the standard base point %s; it is on the curve and of prime order; not an encoding matter, recorded only", g.name, lg, m.G))
 		}
 		vlib.Case(test, g.name, true, g.name+":"+sign)
 	}
